@@ -40,6 +40,8 @@ def driver_line(op: dict, impl_resp: str) -> str | None:
         return f"rmdir dir={op['dir']}"
     if o in ("construct", "pconstruct"):
         return "validate " + op["model_args"]
+    if o == "verbosity":
+        return "verbosity " + op["model_args"]
     if o == "ls":
         return f"ls dir={op['dir']}"
     if o == "restore":
